@@ -110,6 +110,47 @@ theorem initOk_iff (target value : Ty) :
   cases equal value target <;> cases isNumeric target <;> cases isNumeric value <;>
     cases equal target .variable <;> cases equal value .void <;> simp
 
+/-- a returned value is accepted exactly when it has the declared type, or the function returns a
+Variable and the value is not 'nichts' -/
+theorem returnOk_iff (ret value : Ty) :
+    returnOk ret value = true ↔ equal ret value = true ∨ (equal ret .variable = true ∧ equal value .void = false) := by
+  simp only [returnOk]
+  cases equal ret value <;> cases equal ret .variable <;> cases equal value .void <;> simp
+
+/-- what may be returned may be assigned (the return position is the stricter one: it has no
+numeric conversion) -/
+theorem returnOk_imp_assignOk (target value : Ty) (h : returnOk target value = true) : assignOk target value = true := by
+  rw [← initOk_eq_assignOk, initOk_iff]
+  rw [returnOk_iff] at h
+  rcases h with h | h
+  · exact Or.inl (by rw [equal_symm]; exact h)
+  · exact Or.inr (Or.inr h)
+
+/-- 'nichts' is accepted nowhere: not as initialiser, not in an assignment, not as returned value
+of a function that returns something -/
+theorem void_never_accepted (target : Ty) (ht : equal target .void = false) :
+    initOk target .void = false ∧ assignOk target .void = false ∧ returnOk target .void = false := by
+  have hn : isNumeric .void = false := by simp [isNumeric, getUnderlying]
+  have hv : equal (.void : Ty) .void = true := by simp [equal]
+  have hs : equal .void target = false := by rw [equal_symm]; exact ht
+  refine ⟨?_, ?_, ?_⟩
+  · cases h : initOk target .void with
+    | false => rfl
+    | true => rw [initOk_iff] at h; simp [hs, hn, hv] at h
+  · rw [← initOk_eq_assignOk]
+    cases h : initOk target .void with
+    | false => rfl
+    | true => rw [initOk_iff] at h; simp [hs, hn, hv] at h
+  · cases h : returnOk target .void with
+    | false => rfl
+    | true => rw [returnOk_iff] at h; simp [ht, hv] at h
+
+/-- a definition is returned only from a function declared with that very definition -/
+theorem typedef_return_only_itself (i : Nat) (t s : Ty) :
+    returnOk (.typedef i t) s = true ↔ equal (.typedef i t) s = true := by
+  rw [returnOk_iff]
+  simp [equal, getUnderlying]
+
 /-- a definition converts only explicitly: it is accepted only where the very same
 definition (or Variable) is required, and only the very same definition is accepted where
 it is required -/
